@@ -12,6 +12,7 @@ import (
 	"math/big"
 	"strings"
 	"testing"
+	"time"
 
 	ledger "github.com/formancehq/ledger/internal"
 	"github.com/formancehq/ledger/internal/storage"
@@ -203,10 +204,12 @@ func c04Isolation(s1, s2, l1, l2 string) string {
 
 func TestC04(t *testing.T) {
 	c := evid.New("C04")
-	c.Rule = "PARTIAL CLAIM (the plpgsql projection cannot be executed here). Three generated families: (a) read calls on ledgerstore.Store (15 methods x PIT / expand flags / filters incl. $and $or not / page sizes / positions) issued on two stores with different ledger names over one bucket and a recording driver; oracle: statement i of ledger 1 equals statement i of ledger 2 after replacing the string constant <name1> by <name2>, and every statement that names accounts, transactions, moves or logs carries the ledger name as a string constant; (b) ledger.ExpandTransaction and volume helpers on generated postings against the harness fold (delta of inputs/outputs per account and asset, sum of inputs == sum of outputs per asset); (c) storage.InMemoryStore fed with generated log sequences against the harness fold (balances, reverted flag, last log, last transaction, reference and idempotency-key lookups). Non-trivial = (a) a call with a filter, PIT or expansion, (b) >=2 postings sharing an account, (c) a sequence with a revert; distinct by call description / postings / log sequence."
+	c.Rule = "PARTIAL CLAIM (the plpgsql projection cannot be executed here). Three generated families: (a) read calls on ledgerstore.Store (15 methods x PIT / expand flags / filters incl. $and $or not / page sizes / positions) issued on two stores with different ledger names over one bucket and a recording driver; oracle: statement i of ledger 1 equals statement i of ledger 2 after replacing the string constant <name1> by <name2>, and every statement that names accounts, transactions, moves or logs carries the ledger name as a string constant; (b) ledger.ExpandTransaction and volume helpers on generated postings against the harness fold (delta of inputs/outputs per account and asset, sum of inputs == sum of outputs per asset); (c) storage.InMemoryStore fed with generated log sequences against the harness fold (balances, reverted flag, last log, last transaction, reference and idempotency-key lookups); (d) GetAggregatedBalances with generated point-in-time bounds and address filters (exact, wildcard segments, and/or/not) evaluated over a Go model of the moves table holding two ledgers and transactions whose effective date differs from their insertion date, against the fold of the entries of that ledger written up to the instant. Non-trivial = (a) a call with a filter, PIT or expansion, (b) >=2 postings sharing an account, (c) a sequence with a revert, (d) a point-in-time bound or a filter; distinct by call description / postings / log sequence."
 	c.Assumptions = []string{"the SQL functions, triggers and views of 0-init-schema.sql are NOT executed: a defect confined to the .sql file is outside this check", "bun renders bound arguments into the statement text, so string constants are visible to the recording driver"}
 	runProp(t, c, func(rt *rapid.T) {
-		switch rapid.SampledFrom([]string{"isolation", "isolation", "volumes", "inmemory"}).Draw(rt, "family") {
+		switch rapid.SampledFrom([]string{"isolation", "isolation", "volumes", "inmemory", "aggregated", "aggregated"}).Draw(rt, "family") {
+		case "aggregated":
+			c04Aggregated(rt, c)
 		case "isolation":
 			call := c04GenCall(rt)
 			const l1, l2 = "LDG_one", "LDG_two"
@@ -443,4 +446,187 @@ func TestC04(t *testing.T) {
 			}
 		}
 	})
+}
+
+// c04Match is the documented meaning of an address pattern: exact address, or, when a
+// segment is empty, same number of segments and equality on the non-empty ones.
+func c04Match(pattern, addr string) bool {
+	ps, as := strings.Split(pattern, ":"), strings.Split(addr, ":")
+	wild := false
+	for _, p := range ps {
+		if p == "" {
+			wild = true
+		}
+	}
+	if !wild {
+		return pattern == addr
+	}
+	if len(ps) != len(as) {
+		return false
+	}
+	for i, p := range ps {
+		if p != "" && p != as[i] {
+			return false
+		}
+	}
+	return true
+}
+
+type c04AddrF struct {
+	qb   query.Builder
+	eval func(addr string) bool
+	desc string
+}
+
+func c04AddrFilter(t *rapid.T, depth int) c04AddrF {
+	kind := "match"
+	if depth < 2 {
+		kind = rapid.SampledFrom([]string{"match", "match", "and", "or", "not"}).Draw(t, "aggShape")
+	}
+	switch kind {
+	case "and", "or":
+		a, b := c04AddrFilter(t, depth+1), c04AddrFilter(t, depth+1)
+		if kind == "and" {
+			return c04AddrF{query.And(a.qb, b.qb), func(x string) bool { return a.eval(x) && b.eval(x) }, "(" + a.desc + " and " + b.desc + ")"}
+		}
+		return c04AddrF{query.Or(a.qb, b.qb), func(x string) bool { return a.eval(x) || b.eval(x) }, "(" + a.desc + " or " + b.desc + ")"}
+	case "not":
+		a := c04AddrFilter(t, depth+1)
+		return c04AddrF{query.Not(a.qb), func(x string) bool { return !a.eval(x) }, "not " + a.desc}
+	}
+	pat := rapid.SampledFrom([]string{"users:1", "users:2", "users:", ":1", "bank", "world", ":", "users:1:x", "::"}).Draw(t, "aggPattern")
+	return c04AddrF{query.Match("address", pat), func(x string) bool { return c04Match(pat, x) }, "address~" + pat}
+}
+
+// c04Aggregated: GetAggregatedBalances over a Go model of the moves table (two ledgers in one
+// bucket, insertion dates != effective dates) against the harness fold of the log.
+func c04Aggregated(rt *rapid.T, c *evid.Collector) {
+	accs := []string{"world", "users:1", "users:2", "bank", "users:1:x"}
+	assets := []string{"USD", "EUR/2"}
+	base := time.Date(2024, 1, 1, 0, 0, 0, 0, time.UTC)
+	type txn struct {
+		ledger   string
+		inserted time.Time
+		ps       []ledger.Posting
+	}
+	var txs []txn
+	eng := &sqlrec.MovesEngine{}
+	vols := map[string][2]*big.Int{} // ledger|account|asset -> running in/out
+	n := rapid.IntRange(1, 10).Draw(rt, "aggTxs")
+	seq := 0
+	var desc strings.Builder
+	for i := 0; i < n; i++ {
+		l := "l1"
+		if rapid.IntRange(0, 3).Draw(rt, "otherLedger") == 0 {
+			l = "l2"
+		}
+		ins := base.Add(time.Duration(i) * time.Hour)
+		eff := base.Add(time.Duration(rapid.IntRange(-20, 20).Draw(rt, "effOffset")) * time.Hour)
+		np := rapid.IntRange(1, 3).Draw(rt, "aggNP")
+		var ps []ledger.Posting
+		for j := 0; j < np; j++ {
+			p := ledger.NewPosting(rapid.SampledFrom(accs).Draw(rt, "aggSrc"), rapid.SampledFrom(accs[1:]).Draw(rt, "aggDst"), rapid.SampledFrom(assets).Draw(rt, "aggAsset"), big.NewInt(int64(rapid.IntRange(0, 100).Draw(rt, "aggAmt"))))
+			ps = append(ps, p)
+			for side, acc := range []string{p.Source, p.Destination} {
+				k := l + "|" + acc + "|" + p.Asset
+				v, ok := vols[k]
+				if !ok {
+					v = [2]*big.Int{new(big.Int), new(big.Int)}
+				}
+				in, out := new(big.Int).Set(v[0]), new(big.Int).Set(v[1])
+				if side == 0 {
+					out.Add(out, p.Amount)
+				} else {
+					in.Add(in, p.Amount)
+				}
+				vols[k] = [2]*big.Int{in, out}
+				seq++
+				eng.Moves = append(eng.Moves, sqlrec.Move{Ledger: l, Seq: seq, Account: acc, Asset: p.Asset, InsertionDate: ins, EffectiveDate: eff, PostInputs: in, PostOutputs: out})
+			}
+			fmt.Fprintf(&desc, "%s@%d/eff%+d:%s>%s %s %v;", l, i, int(eff.Sub(base).Hours()), p.Source, p.Destination, p.Asset, p.Amount)
+		}
+		txs = append(txs, txn{l, ins, ps})
+	}
+	var pit *ledger.Time
+	pitDesc := "none"
+	if rapid.IntRange(0, 3).Draw(rt, "aggPIT") > 0 {
+		h := rapid.IntRange(-1, n).Draw(rt, "aggPITHour")
+		t0 := ledger.Time{Time: base.Add(time.Duration(h)*time.Hour + 30*time.Minute)}
+		pit = &t0
+		pitDesc = fmt.Sprintf("h%d.5", h)
+	}
+	var f *c04AddrF
+	if rapid.Bool().Draw(rt, "aggFiltered") {
+		x := c04AddrFilter(rt, 0)
+		f = &x
+	}
+	rec := &sqlrec.Recorder{Answer: eng.Answer}
+	db := sqlrec.NewDB(rec)
+	defer db.Close()
+	store := ledgerstore.NewStoreForVerif(db, "bucket", "l1")
+	opts := ledgerstore.NewPaginatedQueryOptions(ledgerstore.PITFilter{PIT: pit})
+	fdesc := "none"
+	if f != nil {
+		opts = opts.WithQueryBuilder(f.qb)
+		fdesc = f.desc
+	}
+	var got ledger.BalancesByAssets
+	var err error
+	pn := safely(func() {
+		got, err = store.GetAggregatedBalances(context.Background(), ledgerstore.NewGetAggregatedBalancesQuery(opts))
+	})
+	mixed := false
+	for _, m := range eng.Moves {
+		if !m.InsertionDate.Equal(m.EffectiveDate) {
+			mixed = true
+		}
+	}
+	c.Case("d:"+desc.String()+"|pit="+pitDesc+"|"+fdesc, pit != nil || f != nil, []string{"d:aggregated", "d:pit=" + fmt.Sprint(pit != nil), "d:filter=" + fmt.Sprint(f != nil)}, func() any {
+		return map[string]any{"family": "aggregated", "log": desc.String(), "pit": pitDesc, "filter": fdesc, "statements": rec.Statements()}
+	})
+	_ = mixed
+	if len(eng.Unhandled) > 0 {
+		harnessError(rt, "moves engine cannot serve: %s", clip(eng.Unhandled[0]))
+	}
+	if pn != nil || err != nil {
+		violation(rt, c, "C04/aggregated/error", "GetAggregatedBalances failed: %v %v", pn, err)
+		return
+	}
+	want := map[string]*big.Int{}
+	for _, tx := range txs {
+		if tx.ledger != "l1" || (pit != nil && tx.inserted.After(pit.Time)) {
+			continue
+		}
+		for _, p := range tx.ps {
+			for side, acc := range []string{p.Source, p.Destination} {
+				if f != nil && !f.eval(acc) {
+					continue
+				}
+				if want[p.Asset] == nil {
+					want[p.Asset] = new(big.Int)
+				}
+				if side == 0 {
+					want[p.Asset].Sub(want[p.Asset], p.Amount)
+				} else {
+					want[p.Asset].Add(want[p.Asset], p.Amount)
+				}
+			}
+		}
+	}
+	for _, as := range assets {
+		g, w := got[as], want[as]
+		if g == nil {
+			g = new(big.Int)
+		}
+		if w == nil {
+			w = new(big.Int)
+		}
+		if g.Cmp(w) != 0 {
+			if !c.IsKnown("C04/aggregated/balance") {
+				rt.Logf("log: %s\npit: %s filter: %s\nstatement: %s", desc.String(), pitDesc, fdesc, clip(strings.Join(rec.Statements(), "\n")))
+				violation(rt, c, "C04/aggregated/balance", "aggregated %s balance is %v, replaying the entries of ledger l1 written up to the instant (filter %s) gives %v", as, g, fdesc, w)
+			}
+			return
+		}
+	}
 }
